@@ -15,7 +15,7 @@ class C03(Prop):
                  "g_del_other_author", "g_k5_tag_short", "g_k5_tag_name", "g_full_scan", "g_index_over_limit",
                  "event_cache.go", "g_done", "g_since_reject", "g_until_reject")
     rule = ("histories of insertions into the real EventCache drawn from a pool of 4..17 events over 3 authors, all event "
-            "classes, d values absent/empty/a/b, timestamps 0..6 (many ties), deletion requests referencing past and future "
+            "classes, d values absent/empty/a/b, timestamps 0..6 (many ties; in one pool of eight a third of the events have a created_at at the ends of int64: MinInt64, -9e18, -1, 2^31, 9e18, MaxInt64 ...), deletion requests referencing past and future "
             "events, themselves, other requests, other authors' events and addressable addresses, re-offered events, "
             "capacity 1..6 or 100; after every insertion the verdict, Len, the match-everything listing, registry and tree "
             "sizes (hooks) and the answers to filter lists are recorded. Non-trivial: at least one query whose answer is non-empty and smaller than the retained set, or a limit that cuts the answer; distinct = distinct JSON")
